@@ -17,7 +17,7 @@ func init() {
 		ID:  "C01",
 		Run: runC01,
 		Explanation: "Decides structural necessary conditions of 'a change rewrites exactly the instances of its - pattern' on every path/site of the current source: " +
-			"R1 the file traversal visits every node (one astutil.Apply over the file parameter, nil post callback; the pre callback stops descending only under node==nil or a true match verdict; every true verdict records a SearchResult built from the same cursor); " +
+			"R1 the file traversal visits every node (one astutil.Apply over the file parameter, nil post callback; the pre callback stops descending only under node==nil; every true verdict records a SearchResult built from the same cursor); " +
 			"R2 FileReplacer.Replace visits every recorded match; R3 no sub-match verdict is dropped anywhere (ok-discipline, A4, over every verdict-returning function of the module); " +
 			"R4 every struct field / slice element is compiled and compared (index loops cover 0..NumField/Len/len with the same index on both sides, no skipping continue/break); " +
 			"R5 structural guards (struct type equality, exact slice length equality, pointer/interface nil-ness and kind, scalar value equality, nil patterns compile to nilMatcher); " +
@@ -132,9 +132,9 @@ func c01Traversal(r *an.Run) {
 			removed = append(removed, edgeTo(c.If.Block(), c.Target))
 		}
 	}
-	for _, br := range an.BranchesOn(clo, vc.Verdict) {
-		removed = append(removed, an.CtrlEdge{Block: br.If.Block(), Succ: br.EdgeWhen(true)})
-	}
+	// (Not descending into a node that matched is NOT accepted either: for a
+	// statement pattern the matched node is the enclosing block, and the
+	// blocks nested in its statements still have to be searched.)
 	var falseRets []*ssa.Return
 	for _, ret := range an.Returns(clo) {
 		b, isc := an.ConstBool(ret.Results[0])
@@ -147,10 +147,10 @@ func c01Traversal(r *an.Run) {
 	}
 	bad := an.ReachableReturnsWithout(clo, falseRets, removed)
 	if len(bad) == 0 {
-		r.Pass(short(clo)+"|no-skip", clo.Pos(), "every 'return false' (do not descend) of the traversal callback is reachable only when the node is nil or the node matched (%d such return(s))", len(falseRets))
+		r.Pass(short(clo)+"|no-skip", clo.Pos(), "every 'return false' (do not descend) of the traversal callback is reachable only when the node is nil (%d such return(s))", len(falseRets))
 	}
 	for _, ret := range bad {
-		r.Fail(short(clo)+"|no-skip", ret.Pos(), "the traversal callback can return false (skip the whole subtree) for a node that is not nil and did not match: instances below it are never visited")
+		r.Fail(short(clo)+"|no-skip", ret.Pos(), "the traversal callback can return false (skip the whole subtree) for a node that is not nil: instances below it (for statement patterns: in blocks nested inside a matched block) are never visited")
 	}
 
 	// a true verdict is always recorded, from the same cursor
